@@ -1340,7 +1340,7 @@ func main() {
 		fmt.Fprintln(os.Stderr, "usage: hC08 -seed N -tier quick|thorough -out DIR")
 		os.Exit(2)
 	}
-	w, err := casefile.New(*out, "C08", "From C08 Require Import Model ModelGen CaseDefs.", 150)
+	w, err := casefile.New(*out, "C08", "From C08 Require Import Model ModelGen ModelPool CaseDefs.", 150)
 	if err != nil {
 		panic(err)
 	}
@@ -1445,6 +1445,9 @@ func main() {
 				w.Count("skipped:limit-plan-run")
 			}
 			os.RemoveAll(dir)
+		}
+		if cf.n < 5000 {
+			d.poolPressure(cr.Fork(), ci, c)
 		}
 	}
 	d.bigLIDs(r.Fork())
